@@ -248,7 +248,7 @@ func in(errBuf *strings.Builder, validName, objName, fieldName string, tv reflec
 
 	// 取右括号的下标
 	rightBracketIndex := strings.LastIndex(val, ")")
-	if leftBracketIndex == -1 || rightBracketIndex == -1 {
+	if leftBracketIndex == -1 || rightBracketIndex < leftBracketIndex {
 		errBuf.WriteString(GetJoinFieldErr(objName, fieldName, useErrMsg))
 		return
 	}
